@@ -10,6 +10,7 @@ import (
 
 	"github.com/google/badwolf/bql/planner/filter"
 	"github.com/google/badwolf/storage"
+	"github.com/google/badwolf/storage/memory"
 	"github.com/google/badwolf/triple"
 	"github.com/google/badwolf/triple/node"
 	"github.com/google/badwolf/triple/predicate"
@@ -370,4 +371,32 @@ func tripleSlice(ts []int) []*triple.Triple {
 		out[i] = trips[t].t
 	}
 	return out
+}
+
+// probePredKind asks the real store (single goroutine) whether a lookup by an
+// immutable predicate returns a temporal triple with the same predicate id.
+func probePredKind() bool {
+	st := memory.NewStore()
+	g, err := st.NewGraph(ctx, "probe")
+	if err != nil {
+		die("probe: %v", err)
+	}
+	var temporal int = -1
+	for i := range trips {
+		if preds[trips[i].p].temporal && preds[trips[i].p].id == "p" {
+			temporal = i
+			break
+		}
+	}
+	if temporal < 0 {
+		die("probe: no temporal triple in the vocabulary")
+	}
+	if err := g.AddTriples(ctx, tripleSlice([]int{temporal})); err != nil {
+		die("probe: %v", err)
+	}
+	r := callLookup(g, 7, -1, 0, -1, buildLO(defaultLO()), chBuffered) // TriplesForPredicate("p"@[])
+	if r.err != nil || r.panicked || !r.closed {
+		die("probe: lookup failed")
+	}
+	return len(r.res) == 0
 }
